@@ -134,6 +134,34 @@ fn view_row_picks_that_row() {
     assert!(vc as *const VC == unsafe { c.c.add(index) });
 }
 
+/// single-entity path with an optional view of an ABSENT component followed by later components:
+/// the absent optional must not consume a column
+#[kani::proof]
+#[kani::unwind(5)]
+fn view_row_optional_absent_then_later_component() {
+    let mut alloc = entity::Allocator::<V3>::new();
+    let mut t = table(0b110);
+    unsafe {
+        t.push(entity!(VB(kani::any()), VC(kani::any())), &mut alloc);
+        t.push(entity!(VB(kani::any()), VC(kani::any())), &mut alloc);
+    }
+    let pb = t.components[0].0 as *const VB;
+    let pc = t.components[1].0 as *const VC;
+    let index: usize = kani::any();
+    kani::assume(index < 2);
+    {
+        let (va, (vb, (vc, _))) = unsafe { t.view_row_unchecked::<Views!(Option<&VA>, &VB, &mut VC), _>(index) };
+        assert!(va.is_none(), "C03: optional view of an absent component is None");
+        assert!(vb as *const VB == unsafe { pb.add(index) }, "C03/C05: a view after an absent Option<&A> reads its own column");
+        assert!(vc as *mut VC as *const VC == unsafe { pc.add(index) }, "C03/C05: and so does the next one (no read past the column list)");
+    }
+    {
+        let (va, (vc, _)) = unsafe { t.view_row_unchecked::<Views!(Option<&mut VA>, &VC), _>(index) };
+        assert!(va.is_none());
+        assert!(vc as *const VC == unsafe { pc.add(index) }, "C03/C05: a view after an absent Option<&mut A> reads its own column");
+    }
+}
+
 /// a write through a mutable view changes that cell only
 #[kani::proof]
 #[kani::unwind(5)]
